@@ -187,7 +187,12 @@ class Model():
         else:
             if asset.name in self.asset_names:
                 if allow_duplicate_names:
-                    asset.name = asset.name + ':' + str(asset.id)
+                    # The name extended with the id can itself be in use
+                    # already, keep extending it until it is unique.
+                    new_name = asset.name + ':' + str(asset.id)
+                    while new_name in self.asset_names:
+                        new_name = new_name + ':' + str(asset.id)
+                    asset.name = new_name
                 else:
                     raise ValueError(
                         f'Asset name {asset.name} is a duplicate'
